@@ -86,7 +86,7 @@ class C10(core.Check):
     GEN = []
     PROPS = 'props/C10.v'
     MODEL_IMPORTS = ['model.StrSpace', 'model.UserFn']
-    QUICK_CASES = 90
+    QUICK_CASES = 80
     THOROUGH_CASES = 1500
     TRUSTED = ['hand model model/StrSpace.v + model/UserFn.v of StringSpace / DataSegment / Scalars / Arrays / '
                'ExpressionParser.parse / UserFunction.evaluate, tied by correspondence on random histories through a '
@@ -95,8 +95,8 @@ class C10(core.Check):
                'var_start, code_start and the memory size are read from the Session and passed to the model; '
                'the order of temp_values (a Python set) is modelled as insertion order, so addresses of individual '
                'strings are not compared, only lengths, contents, current, _temp and free memory']
-    PARTIAL = ('the statement-level invariant theorem covers LET, SWAP, ERASE, DIM, CLEAR, DEF FN but not MID$= and '
-               'LSET/RSET; the refinement to an abstract variable map is proved only in its storage half (no value '
+    PARTIAL = ('the statement-level invariant theorem covers LET, SWAP, LSET, RSET, ERASE, DIM, CLEAR, DEF FN, DEFtype but not MID$= '
+               'and console INPUT; the refinement to an abstract variable map is proved only in its storage half (no value '
                'changes between assignments, stored pointers read back); compaction is stated per run of equal '
                'addresses of the sorted root list')
     RULE = ('histories of 5..300 statements (LET with string expressions, MID$/LSET/RSET, SWAP, ERASE, DIM, CLEAR[,n], '
